@@ -7,7 +7,7 @@ for f in glob.glob(f'/verif/replays/{pat}.json'):
     u=('K' if d['universe']['openat2'] else 'E')+('/fresh' if d.get('fresh') else '')
     key=(d['expect']['signature'],u)
     c[key]+=1
-    ex.setdefault(key,[]).append((d['expect']['detail'][:300], json.dumps(d.get('extra',{}).get('placement')), f))
+    ex.setdefault(key,[]).append((d['expect']['detail'][:300], json.dumps((d.get('extra') or {}).get('placement')), f))
 for k,v in sorted(c.items()):
     print(v,k)
     for e in ex[k][:int(sys.argv[2]) if len(sys.argv)>2 else 2]:
